@@ -201,8 +201,8 @@ def run(ctx):
     for tsv in (("panic.tsv", "c16.tsv", "c18.tsv") if allb else ()):
         ga = panics.load_audit(os.path.join(os.path.dirname(AUDIT), tsv))
         gu = _C(s_.audit_key() for s_ in ginv if not s_.discharge)
-        for k, (n_, why) in ga.items():
-            if gu[k] < n_:
+        for k, (n_, why, canon_) in ga.items():
+            if k == canon_ and sum(gu[a] for a, v_ in ga.items() if v_[2] == canon_) < n_:
                 # a panic site that went away is never a violation of totality and not a reason to withhold the verdict: recorded only.
                 # (On the pinned tree no line is unused — bin/mknames reports unused lines when the tables are regenerated — so a line can only become unused through an edit.)
                 res.note("R1.1c: audit line `%s` of %s covers %d site(s) but only %d exist now (a site was removed or changed shape)" % (k, tsv, n_, gu[k]))
